@@ -1,6 +1,7 @@
-/-! spike: configuration state machine (core only) -/
-namespace MDC
+/-! `_config.py`: a one-variable state machine with a restore-on-exit protocol (core only). -/
+namespace MD.Cfg
 
+/-- argument of `set_config(plot_backend=…)` / `config_context(plot_backend=…)` -/
 inductive Val | none | mpl | plotly | bad
 deriving DecidableEq, Repr
 
@@ -10,7 +11,8 @@ deriving DecidableEq, Repr
 inductive Out | ok | valueError | moduleNotFound | userExc
 deriving DecidableEq, Repr
 
-/-- `set_config(plot_backend=v)`; `avail` = plotly importable -/
+/-- `set_config(plot_backend=v)`; `avail` = `find_spec("plotly")` is truthy.
+Validation comes before the assignment, so a rejected call leaves the state alone. -/
 def setCfg (avail : Bool) (s : Backend) : Val → Backend × Out
   | .none => (s, .ok)
   | .mpl => (.mpl, .ok)
@@ -21,72 +23,39 @@ def toVal : Backend → Val
   | .mpl => .mpl
   | .plotly => .plotly
 
+/-- programs: histories of set / read-and-mutate / raise / nested `with` blocks / `try…except` -/
 inductive Prog
-  | skip | seq (a b : Prog) | set (v : Val) | getMutate | raise | block (v : Val) (body : Prog)
+  | skip
+  | seq (a b : Prog)
+  | set (v : Val)
+  | getMutate                     -- `d = get_config(); d["plot_backend"] = "junk"`
+  | raise                         -- `raise UserExc`
+  | block (v : Val) (body : Prog) -- `with config_context(plot_backend=v): body`
+  | catch (body : Prog)           -- `try: body  except Exception: pass`
 
-/-- big-step semantics: state after, and whether an exception propagates -/
-def exec (avail : Bool) : Prog → Backend → Backend × Out
-  | .skip, s => (s, .ok)
+/-- what the harness observes: the backend after every primitive step and at block entry/exit -/
+abbrev Trace := List Backend
+
+/-- big-step semantics: state after, whether an exception propagates, observation trace -/
+def exec (avail : Bool) : Prog → Backend → Backend × Out × Trace
+  | .skip, s => (s, .ok, [])
   | .seq a b, s =>
     match exec avail a s with
-    | (s', .ok) => exec avail b s'
+    | (s', .ok, t) => let (s'', o, t') := exec avail b s'; (s'', o, t ++ t')
     | r => r
-  | .set v, s => setCfg avail s v
-  | .getMutate, s => (s, .ok)          -- the returned dict is a copy: mutation has no effect
-  | .raise, s => (s, .userExc)
+  | .set v, s => let (s', o) := setCfg avail s v; (s', o, [s'])
+  | .getMutate, s => (s, .ok, [s])       -- the returned dict is a copy: mutating it has no effect
+  | .raise, s => (s, .userExc, [s])
   | .block v body, s =>
-    -- old = get_config(); set_config(v) [may raise before try]; try body finally set_config(**old)
+    -- old = get_config(); set_config(v)  [may raise before the try]; try: body finally: set_config(**old)
     match setCfg avail s v with
     | (s1, .ok) =>
-      let (s2, o) := exec avail body s1
-      -- finally: set_config(plot_backend=old); restoring a value that was current is always valid
+      let (s2, o, t) := exec avail body s1
       let (s3, o3) := setCfg avail s2 (toVal s)
-      (s3, if o3 = .ok then o else o3)
-    | r => r
+      (s3, if o3 = .ok then o else o3, [s1] ++ t ++ [s3])
+    | (s1, o) => (s1, o, [s1])
+  | .catch body, s =>
+    let (s', _, t) := exec avail body s
+    (s', .ok, t ++ [s'])
 
-/-- restoring a backend that was in force: if it is plotly then plotly was available -/
-def Reachable (avail : Bool) (s : Backend) : Prop := s = .plotly → avail = true
-
-theorem setCfg_reach (avail : Bool) (s : Backend) (v : Val) (h : Reachable avail s) :
-    Reachable avail (setCfg avail s v).1 := by
-  cases v <;> simp [setCfg, Reachable] at * <;> try exact h
-  · split <;> simp_all
-
-theorem exec_reach (avail : Bool) (p : Prog) (s : Backend) (h : Reachable avail s) :
-    Reachable avail (exec avail p s).1 := by
-  induction p generalizing s with
-  | skip => simpa [exec]
-  | seq a b iha ihb =>
-    simp only [exec]
-    have := iha s h
-    split
-    · rename_i s' heq; rw [heq] at this; exact ihb s' this
-    · exact this
-  | set v => exact setCfg_reach avail s v h
-  | getMutate => simpa [exec]
-  | raise => simpa [exec]
-  | block v body ih =>
-    simp only [exec]
-    split
-    · rename_i s1 heq
-      have h1 : Reachable avail s1 := by have := setCfg_reach avail s v h; rw [heq] at this; exact this
-      exact setCfg_reach avail _ _ (ih s1 h1)
-    · exact setCfg_reach avail s v h
-
-/-- C18_block_restores: whatever the body does and however it is left, a block leaves the state as
-it found it (entry failed ⇒ unchanged too). -/
-theorem block_restores (avail : Bool) (v : Val) (body : Prog) (s : Backend) (h : Reachable avail s) :
-    (exec avail (.block v body) s).1 = s := by
-  simp only [exec]
-  split
-  · rename_i s1 heq
-    cases s with
-    | mpl => simp [setCfg, toVal]
-    | plotly =>
-      have : avail = true := h rfl
-      simp [setCfg, toVal, this]
-  · rename_i r hr
-    cases v <;> simp [setCfg] at * <;> try (split <;> simp_all)
-
-#print axioms block_restores
-end MDC
+end MD.Cfg
